@@ -66,6 +66,10 @@ class UpdateExtractor(BaseExtractor):
                 ):
                     holder.add_read(read_table)
 
+            if segment.type == "where_clause":
+                for sq in self.list_subquery(segment):
+                    subqueries.append(sq)
+
         for tgt_col in columns:
             tgt_col.parent = list(holder.write)[0]
             for src_col in tgt_col.to_source_columns(
